@@ -111,11 +111,13 @@ type FuncVerifier struct {
 	oldBound                                     map[types.Object]Term
 	curClause                                    *Clause
 	anchorStmts                                  map[ast.Stmt][]int
+	letObjs                                      map[string]types.Object
 	yields                                       map[types.Object]*yieldCtx
 	rfOverride                                   *rangeFuncOverride
 	clauseCtx                                    *clauseCtx
 	rfPending                                    *rangeFuncOverride
 	funcChoices                                  map[types.Object]*funcChoice
+	recPure                                      map[string]bool
 	noSplit                                      bool
 	inClauseHere                                 bool
 	heapSorts                                    map[string]*Sort // heap name -> reference sort
@@ -290,6 +292,7 @@ func (fv *FuncVerifier) heap(st *State, ref *Sort) Term {
 
 // nilMapAxiom: a nil map has no entries (reads of heap slot 0 see an empty map).
 func (fv *FuncVerifier) nilMapAxiom(heapName string, h Term) {
+	fv.typedHeapAxiom(h)
 	if !strings.HasPrefix(heapName, "M_") || h.Sort == nil || h.Sort.Elem == nil || len(h.Sort.Elem.Fields) < 3 {
 		return
 	}
@@ -299,6 +302,65 @@ func (fv *FuncVerifier) nilMapAxiom(heapName string, h Term) {
 	// len(m) of every map in this heap is a cardinality: non-negative, zero exactly for the empty key set
 	fv.u.decls = append(fv.u.decls, fmt.Sprintf("(assert (forall ((r!m Int)) (! (and (>= (%s (select %s r!m)) 0) (= (= (%s (select %s r!m)) 0) (forall ((k!m %s)) (not (select (%s (select %s r!m)) k!m))))) :pattern ((select %s r!m)))))",
 		cs.Fields[2].Accessor, h.S, cs.Fields[2].Accessor, h.S, cs.Key.Name, cs.Fields[0].Accessor, h.S, h.S))
+}
+
+// typedHeapAxiom (pragma typed_heap): every object of a fresh (initial or havocked) struct heap is a
+// well-typed Go value: its bounded integer fields (also those of embedded/nested structs) are in
+// the range of their types and slice lengths are non-negative. Without the pragma these facts are
+// only added for values the executed code loads, not for fields mentioned only in specifications.
+func (fv *FuncVerifier) typedHeapAxiom(h Term) {
+	if fv.spec == nil || h.Sort == nil || h.Sort.Elem == nil || h.Sort.Elem.Kind != KStruct || fv.u.bv {
+		return
+	}
+	if _, ok := fv.spec.Pragmas["typed_heap"]; !ok {
+		return
+	}
+	var facts []string
+	var walk func(v string, s *Sort, depth int)
+	walk = func(v string, s *Sort, depth int) {
+		for _, f := range s.Fields {
+			fvv := "(" + f.Accessor + " " + v + ")"
+			switch f.Sort.Kind {
+			case KInt:
+				if f.GoType != nil && isInteger(f.GoType) {
+					facts = append(facts, fv.u.inRange(f.GoType, Term{fvv, f.Sort}).S)
+				}
+			case KSlice:
+				facts = append(facts, "(>= "+slLen(Term{fvv, f.Sort}).S+" 0)")
+				// elements of the slice are well-typed values too
+				if et := elemType(f.GoType); et != nil && depth < 3 && f.Sort.Elem != nil {
+					el := "(select " + slArr(Term{fvv, f.Sort}).S + " j!t" + fmt.Sprint(depth) + ")"
+					saved := facts
+					facts = nil
+					switch f.Sort.Elem.Kind {
+					case KInt:
+						if isInteger(et) {
+							facts = append(facts, fv.u.inRange(et, Term{el, f.Sort.Elem}).S)
+						}
+					case KStruct:
+						if !f.Sort.Elem.building {
+							walk(el, f.Sort.Elem, depth+1)
+						}
+					}
+					inner := facts
+					facts = saved
+					if len(inner) > 0 {
+						facts = append(facts, fmt.Sprintf("(forall ((j!t%d Int)) (! (and %s) :pattern (%s)))", depth, strings.Join(inner, " "), el))
+					}
+				}
+			case KStruct:
+				if depth < 3 && !f.Sort.building {
+					walk(fvv, f.Sort, depth+1)
+				}
+			}
+		}
+	}
+	walk("(select "+h.S+" x!t)", h.Sort.Elem, 0)
+	if len(facts) == 0 {
+		return
+	}
+	fv.u.decls = append(fv.u.decls, fmt.Sprintf("(assert (forall ((x!t Int)) (! (and %s) :pattern ((select %s x!t)))))", strings.Join(facts, " "), h.S))
+	fv.u.note("pragma typed_heap: objects of fresh heaps are assumed well-typed (integer fields in range)")
 }
 
 func (fv *FuncVerifier) setHeap(st *State, ref *Sort, h Term) {
@@ -1812,6 +1874,24 @@ func (fv *FuncVerifier) unrollRange(s *ast.RangeStmt, st *State, coll Term, n in
 	return fv.mergeStates(append(exits, cur), base)
 }
 
+// letObj is the specification-only variable bound by a let_after clause (typed by its wrapper).
+func (fv *FuncVerifier) letObj(ab *AssertBefore) types.Object {
+	if o := fv.letObjs[ab.LetName]; o != nil {
+		return o
+	}
+	fd := fv.prog.decls[fv.spec.PkgPath+"."+ab.Clause.Wrapper]
+	if fd == nil {
+		reject("let_after %s: wrapper not found", ab.LetName)
+	}
+	rt := fd.fn.Type().(*types.Signature).Results().At(0).Type()
+	o := types.NewVar(token.NoPos, fv.fd.fn.Pkg(), ab.LetName, rt)
+	if fv.letObjs == nil {
+		fv.letObjs = map[string]types.Object{}
+	}
+	fv.letObjs[ab.LetName] = o
+	return o
+}
+
 // checkAssertsBefore: contract assertions anchored at this statement.
 func (fv *FuncVerifier) checkAssertsBefore(s ast.Stmt, st *State, after bool) {
 	fv.checkAssertsInit()
@@ -1828,6 +1908,10 @@ func (fv *FuncVerifier) checkAssertsBefore(s ast.Stmt, st *State, after bool) {
 		}
 		t := fv.evalClauseHere(ab.Clause, st, at)
 		fv.clauseCtx = saved
+		if ab.LetName != "" {
+			st.vars[fv.letObj(ab)] = fv.def(ab.LetName, t)
+			continue
+		}
 		when := "before"
 		if after {
 			when = "after"
